@@ -18,6 +18,7 @@ import (
 	"github.com/wrgl/wrgl/pkg/pbar"
 	"github.com/wrgl/wrgl/pkg/slice"
 	"github.com/wrgl/wrgl/pkg/testutils"
+	"github.com/wrgl/wrgl/pkg/verifhook"
 )
 
 func getRunSize() (uint64, error) {
@@ -355,6 +356,7 @@ func (s *Sorter) SortedBlocks(ctx context.Context, removedCols map[int]struct{},
 				case <-ctx.Done():
 					return
 				default:
+					verifhook.Yield("sorter.sendBlock")
 					blocks <- b
 				}
 				offset++
@@ -480,6 +482,7 @@ func (s *Sorter) SortedRows(ctx context.Context, removedCols map[int]struct{}, e
 				case <-ctx.Done():
 					return
 				default:
+					verifhook.Yield("sorter.sendRows")
 					rowsCh <- &Rows{
 						Offset: offset,
 						Rows:   rows,
